@@ -267,6 +267,44 @@ func main() {
 			}
 		}
 	}
+	// (e) boolean expressions: operand kinds x operators x use forms, evaluated repeatedly in one activation while the
+	// truth values of the operands change (short-circuit code re-reads operand slots: a stale slot shows only on re-evaluation)
+	operands := []string{"a > i", "bv", "mb[ks[i]]", "odd(i)", "t.B", "bs[i%2]", "e.(bool)", "!mb[ks[i]]", "i%2 == 0", "len(ks[i]) > 0 && mb[ks[i]]"}
+	ne := 0
+	boolProg := func(name, expr string, use int) {
+		var u string
+		switch use {
+		case 0:
+			u = "if " + expr + " {\nn += 10\n} else {\nn++\n}"
+		case 1:
+			u = "ok := " + expr + "\nif ok {\nn += 10\n}"
+		case 2:
+			u = "for j := 0; (" + expr + ") && j < 2; j++ {\nn += 10\n}"
+		case 3:
+			u = "switch {\ncase " + expr + ":\nn += 10\ndefault:\nn++\n}"
+		case 4:
+			u = "if func() bool { return " + expr + " }() {\nn += 10\n}"
+		case 5:
+			u = "n += btoi(" + expr + ")"
+		}
+		body := "mb := map[string]bool{\"x\": true, \"w\": false}\nks := []string{\"x\", \"y\", \"x\", \"w\"}\nbs := []bool{true, false}\nbv := a > 3\nvar e interface{} = b > 3\nt := struct{ B bool }{a%2 == 0}\nn := 0\nfor i := 0; i < 4; i++ {\nif i == 2 {\ndelete(mb, \"x\")\nt.B = !t.B\nbv = !bv\nif e.(bool) {\ne = false\n} else {\ne = true\n}\n}\n" + u + "\nShow(i, n, len(mb), bv, t.B)\n}\n_, _, _, _, _, _ = mb, ks, bs, bv, e, t"
+		text := "package main\n\nimport . \"verif/engine/twin/h\"\n\nfunc odd(x int) bool { return x%2 == 1 }\n\nfunc btoi(b bool) int {\nif b {\nreturn 1\n}\nreturn 0\n}\n\nfunc run(a, b int) {\n" + body + "\n}\n\nfunc main() {\nrun(3, 5)\nrun(6, 2)\n}\n"
+		progs = append(progs, emit.Src{Name: name, Text: text})
+		ne++
+	}
+	for xi, x := range operands {
+		for yi, y := range operands {
+			for oi, tmpl := range []string{"X && Y", "X || Y", "!(X && Y)", "X && !Y"} {
+				expr := strings.NewReplacer("X", "("+x+")", "Y", "("+y+")").Replace(tmpl)
+				for use := 0; use < 6; use++ {
+					if !thorough && use >= 3 && (xi+yi+oi)%3 != 0 {
+						continue
+					}
+					boolProg(fmt.Sprintf("e %s use=%d/%s", tmpl, use, strings.ReplaceAll(expr, "/", "÷")), expr, use)
+				}
+			}
+		}
+	}
 	emitAll := func(out, pkg string, ps []emit.Src, shards int) int {
 		res, err := emit.Package(out, pkg, ps, shards)
 		if err != nil {
@@ -289,5 +327,5 @@ func main() {
 	if thorough {
 		nt = emitAll(emit.Root()+"/gen/c01t", "c01t", progsT, 512)
 	}
-	fmt.Printf("c01 gen tier=%s: contexts=%d payloads=%d programs quick=%d thorough-extra=%d (a=%d b=%d c=%d d=%d)\n", *tier, len(ctxs), len(pays), nq, nt, na, nb, nc, nd)
+	fmt.Printf("c01 gen tier=%s: contexts=%d payloads=%d programs quick=%d thorough-extra=%d (a=%d b=%d c=%d d=%d e=%d)\n", *tier, len(ctxs), len(pays), nq, nt, na, nb, nc, nd, ne)
 }
